@@ -22,6 +22,7 @@ THEOREMS = {
             "ShipVerif.Reg.C11_two_sections_drop_newer",
             "ShipVerif.Life.C11_notifications_consistent", "ShipVerif.Life.lifeCfg_is_fixed", "ShipVerif.Life.linv_run",
             "ShipVerif.Life.C11_delayed_end_of_older_connection"],
+    "C05": ["ShipVerif.Hub.C10_task_guard", "ShipVerif.Hub.C10_dial_only_registered"],
     "C01": ["ShipVerif.Hub.C10_trust_sources", "ShipVerif.Hub.C10_unregister_effect", "ShipVerif.Hub.C10_cancel_effect"],
 }
 IMPORTS = ["ShipVerif.Props.HubProps", "ShipVerif.Props.C15", "ShipVerif.Props.C11Reg", "ShipVerif.Props.C10Dial", "ShipVerif.Props.C10Shut", "ShipVerif.Props.C11Life"]
@@ -58,6 +59,8 @@ def project(pid, line):
         return sorted((k, v.get("t")) for k, v in rows.items() if v.get("t") == "1")
     if pid == "C18":
         return (pairs, sorted((k, v.get("d")) for k, v in rows.items() if v.get("d") != "0"))
+    if pid == "C05":
+        return sorted((k, v.get("r"), v.get("n")) for k, v in rows.items() if v.get("r") == "1" or v.get("n") != "-")
     if pid == "C11":
         return (sorted(o for o in others if o.startswith("disc:")), sorted((k, v.get("c")) for k, v in rows.items() if v.get("c") != "-"))
     return canon_line(line)
@@ -154,6 +157,12 @@ def predicates(pid, ins, impl):
             got = rows.get(k, {}).get("c", "-")
             if (str(want) if want is not None else "-") != got:
                 fail("registry for %s holds %s after connection %d closed; connection %s was registered before" % (k, got, cid, reg.get(k)))
+        if pid == "C05" and w[0] == "tick":
+            # every sleeping connection attempt has had its turn (delays are 1-2 s, a tick is 2.2 s): none may still count
+            # as running, or mDNS reports for that SKI are ignored from now on and the hub never dials it again
+            for kk, v in rows.items():
+                if v.get("r") == "1":
+                    fail("after all sleeping connection attempts had their turn, an attempt for %s still counts as running: further mDNS reports for it are ignored, the hub will not dial it again" % kk)
         if pid == "C18":
             for o in others:
                 if o.startswith("stale:"):
